@@ -884,7 +884,12 @@ static carquet_status_t load_next_page_mmap(
         return status;
     }
 
-    if (page_header.type != CARQUET_PAGE_DATA && page_header.type != CARQUET_PAGE_DATA_V2) {
+    if (page_header.type == CARQUET_PAGE_DATA_V2) {
+        /* Only the v1 page layout is decoded; a v2 page must not be read through it */
+        CARQUET_SET_ERROR(error, CARQUET_ERROR_NOT_IMPLEMENTED, "Data page v2 is not supported");
+        return CARQUET_ERROR_NOT_IMPLEMENTED;
+    }
+    if (page_header.type != CARQUET_PAGE_DATA) {
         CARQUET_SET_ERROR(error, CARQUET_ERROR_INVALID_PAGE, "Expected data page");
         return CARQUET_ERROR_INVALID_PAGE;
     }
@@ -1122,7 +1127,12 @@ static carquet_status_t load_next_page_fread(
         return status;
     }
 
-    if (page_header.type != CARQUET_PAGE_DATA && page_header.type != CARQUET_PAGE_DATA_V2) {
+    if (page_header.type == CARQUET_PAGE_DATA_V2) {
+        /* Only the v1 page layout is decoded; a v2 page must not be read through it */
+        CARQUET_SET_ERROR(error, CARQUET_ERROR_NOT_IMPLEMENTED, "Data page v2 is not supported");
+        return CARQUET_ERROR_NOT_IMPLEMENTED;
+    }
+    if (page_header.type != CARQUET_PAGE_DATA) {
         CARQUET_SET_ERROR(error, CARQUET_ERROR_INVALID_PAGE, "Expected data page");
         return CARQUET_ERROR_INVALID_PAGE;
     }
